@@ -5,7 +5,7 @@
 //
 //	(absent) | ok | ok:<subject id>   success
 //	err:<error expression>            return that error (see BuildError)
-//	panic | panicerr                  panic with a string / with an error value
+//	panic | panicerr | panicabort     panic with a string / with an error value / with http.ErrAbortHandler
 //
 // Error handlers additionally understand "seterr:<expr>" (record <expr> as pipeline error and
 // report success). Every execution is recorded under the case id found in header "X-V-Case".
@@ -223,6 +223,9 @@ func (m *mech) outcome(ctx heimdall.Context) (string, string, error) {
 		panic("scripted panic in " + m.spec.id)
 	case "panicerr":
 		panic(fmt.Errorf("scripted panic in %s", m.spec.id)) //nolint:goerr113
+	case "panicabort":
+		// the value net/http uses to abort a handler: a panic like any other to everything in front of it
+		panic(http.ErrAbortHandler)
 	default:
 		panic("harness: unknown outcome " + val)
 	}
